@@ -487,6 +487,9 @@ ADAPTORS = {
     "std::iter::Iterator::fold": "fold",
     "std::iter::Iterator::try_fold": "try_fold",
     "std::iter::Iterator::sum": "sum",
+    "std::iter::Iterator::find_map": "find_map",
+    "std::iter::Iterator::any": "any",
+    "std::iter::Iterator::all": "all",
     "std::iter::Iterator::collect": "collect",
     "std::option::Option::<T>::map": "opt_map",
     "std::option::Option::<T>::and_then": "opt_and_then",
@@ -1125,6 +1128,49 @@ class Desugar:
         self._loop(body, blk, t, marks, t["args"][0], per_item,
                    lambda: self.new_block(body, [self.st(dest, _agg(RES, "Ok", [_mv(ACC)]), span)], self.goto(target, span), chain),
                    init=[self.use(ACC, t["args"][1], span)])
+
+
+    def d_find_map(self, body, blk, t, marks):
+        """it.find_map(f): for x in it { if let Some(r) = f(x) { break Some(r) } } else None"""
+        f = self.need_callable(body, t["args"][1], marks)
+        span, chain = t["span"], blk.get("inl", ())
+        dest, target = t["dest"]["l"], t["target"]
+        R = self.new_local(body, t.get("dest_ty", "std::option::Option<?>"))
+
+        def per_item(item, H):
+            found = self.new_block(body, [self.st(dest, _agg(OPT, "Some", [_payload(R, "Some")]), span)], self.goto(target, span), chain)
+            stmts, term = self.switch2(body, R, H, found, span)
+            sw = self.new_block(body, stmts, term, chain)
+            return self.emit_callable(body, f, [_mv(item)], R, sw, span, chain)
+
+        self._loop(body, blk, t, marks, t["args"][0], per_item,
+                   lambda: self.new_block(body, [self.st(dest, _agg(OPT, "None", []), span)], self.goto(target, span), chain))
+
+    def _bool_search(self, body, blk, t, marks, stop_on, result_on_stop):
+        f = self.need_callable(body, t["args"][1], marks)
+        span, chain = t["span"], blk.get("inl", ())
+        dest, target = t["dest"]["l"], t["target"]
+        Bv = self.new_local(body, "bool")
+
+        def lit(v):
+            return {"k": {"v": v, "ty": "bool"}}
+
+        def per_item(item, H):
+            stop = self.new_block(body, [self.use(dest, lit(result_on_stop), span)], self.goto(target, span), chain)
+            tg = [[0, stop if not stop_on else H]]
+            sw = self.new_block(body, [], {"k": "switch", "discr": _mv(Bv), "discr_ty": "bool", "targets": tg, "otherwise": (H if not stop_on else stop), "span": span}, chain)
+            return self.emit_callable(body, f, [_mv(item)], Bv, sw, span, chain)
+
+        self._loop(body, blk, t, marks, t["args"][0], per_item,
+                   lambda: self.new_block(body, [self.use(dest, lit(not result_on_stop), span)], self.goto(target, span), chain))
+
+    def d_any(self, body, blk, t, marks):
+        """it.any(f): for x in it { if f(x) { break true } } else false"""
+        self._bool_search(body, blk, t, marks, True, True)
+
+    def d_all(self, body, blk, t, marks):
+        """it.all(f): for x in it { if !f(x) { break false } } else true"""
+        self._bool_search(body, blk, t, marks, False, False)
 
 
 class _Skip(Exception):
